@@ -195,3 +195,66 @@ func BadHelperUnlocked(in chan int) []int {
 	wg.Wait()
 	return out
 }
+
+// ---- G3 / G4 ----
+
+func OkLoopCopy(items []string, out chan string) {
+	var wg sync.WaitGroup
+	for _, it := range items {
+		it := it
+		wg.Add(1)
+		go func() {
+			defer wg.Done()
+			out <- it
+		}()
+	}
+	wg.Wait()
+}
+
+func OkLoopArg(items []string, out chan string) {
+	var wg sync.WaitGroup
+	for _, it := range items {
+		wg.Add(1)
+		go func(s string) {
+			defer wg.Done()
+			out <- s
+		}(it)
+	}
+	wg.Wait()
+}
+
+func BadLoopCapture(items []string, out chan string) {
+	var wg sync.WaitGroup
+	for _, it := range items {
+		wg.Add(1)
+		go func() {
+			defer wg.Done()
+			out <- it
+		}()
+	}
+	wg.Wait()
+}
+
+func OkHandOverFresh(in chan int, out chan []int) {
+	batch := make([]int, 0, 10)
+	for v := range in {
+		if len(batch) >= 10 {
+			out <- batch
+			batch = make([]int, 0, 10)
+		}
+		batch = append(batch, v)
+	}
+	out <- batch
+}
+
+func BadHandOverReuse(in chan int, out chan []int) {
+	batch := make([]int, 0, 10)
+	for v := range in {
+		if len(batch) >= 10 {
+			out <- batch
+			batch = batch[:0]
+		}
+		batch = append(batch, v)
+	}
+	out <- batch
+}
